@@ -15,15 +15,18 @@ Lemma filter_neg_map_nojoin : forall (f : nat -> bmsg) l, (forall x, is_join (f 
   filter (fun m => negb (is_join m)) (map f l) = map f l.
 Proof. intros f l H. induction l; cbn; [reflexivity|]. rewrite H. cbn. congruence. Qed.
 
-(* the burst is what the settings say (F19 repaired) *)
+(* the burst is what the settings say (the generated burst against the hand-written reading of the property) *)
 Lemma burst_exact : forall s p sh, login_burst s p sh = spec_burst s p sh.
-Proof. reflexivity. Qed.
+Proof.
+  intros. unfold login_burst, burst_network, burst_distributed, burst_users, burst_rooms, burst_interests, burst_shares, spec_burst.
+  rewrite <- !app_assoc. reflexivity.
+Qed.
 
 (* and the favourite rooms are in it iff auto_join *)
 Lemma burst_joins : forall s p sh,
   filter is_join (login_burst s p sh) = (if s_auto_join s then map JoinRoom (s_favorites s) else []).
 Proof.
-  intros. unfold login_burst. cbn [app filter is_join negb].
+  intros. rewrite burst_exact. unfold spec_burst. cbn [app filter is_join negb].
   rewrite !filter_app. cbn [filter is_join]. rewrite !filter_app.
   rewrite !(filter_map_nojoin AddUser), !(filter_map_nojoin AddInterest), !(filter_map_nojoin AddHatedInterest) by reflexivity.
   cbn [filter is_join app]. rewrite !app_nil_r.
